@@ -135,9 +135,9 @@ def c04(tier, seed):
         obs = vlib.Obs()
         b = build_fieldmon(work)
         R = reps(tier, 3000, 1000000)
-        run_modes(obs, b, [dict(VP_MODE='init', VP_FORMATS=f, VP_REPS=R) for f in format_ids()], seed)
+        run_modes(obs, b, [dict(VP_MODE='init', VP_FORMATS=f, VP_REPS=R if pl == 0 else max(20, R // 8), VP_PLACE=pl) for f in format_ids() for pl in PLACES], seed)
         filt(obs, ['init:'])
-        cov = dict(distinct_nontrivial=int(obs.stats.get('nontrivial', 0)),
+        cov = dict(distinct_nontrivial=int(obs.stats.get('nontrivial', 0)), placements=list(PLACES),
                    rule='20 current + 4 legacy initialisers (avtp_cvf_pdu_init for all 256 format_subtype values) x prior contents '
                         '{0x00, 0xFF, 0xA5, %d random} of header and surrounding bytes; header compared with the canonical image of '
                         'spec/wire.spec, all other arena bytes must be unchanged, second call must change nothing.  Non-trivial: '
@@ -176,7 +176,7 @@ def c11(tier, seed):
         obs = vlib.Obs()
         b = build_fieldmon(work)
         seeds = range(reps(tier, 4, 600))
-        jobs = [dict(VP_MODE='badargs', VP_FORMATS=f, VP_SEED=int(seed) * 1000 + s) for f in format_ids() for s in seeds]
+        jobs = [dict(VP_MODE='badargs', VP_FORMATS=f, VP_SEED=int(seed) * 1000 + s, VP_PLACE=PLACES[s % len(PLACES)]) for f in format_ids() for s in seeds]
         run_modes(obs, b, jobs, seed)
         filt(obs, ['badargs:'])
         cov = dict(distinct_nontrivial=int(obs.stats.get('nontrivial', 0)) // len(seeds), repetitions_with_other_buffers=len(seeds),
@@ -200,9 +200,9 @@ def c12(tier, seed):
         b = build_fieldmon(work)
         R = reps(tier, 3000, 1000000)
         fm = [f['id'] for f in S.load()['formats'] if f['legacy']]
-        run_modes(obs, b, [dict(VP_MODE='legacy', VP_FORMATS=f, VP_REPS=R) for f in fm], seed)
+        run_modes(obs, b, [dict(VP_MODE='legacy', VP_FORMATS=f, VP_REPS=R if pl == 0 else max(20, R // 8), VP_PLACE=pl) for f in fm for pl in PLACES], seed)
         filt(obs, ['legacy:'])
-        cov = dict(distinct_nontrivial=int(obs.stats.get('nontrivial', 0)), legacy_formats=fm,
+        cov = dict(distinct_nontrivial=int(obs.stats.get('nontrivial', 0)) // len(PLACES), legacy_formats=fm, placements=list(PLACES),
                    rule='5 legacy formats x every field identifier and every legacy alias macro: legacy get vs current GetField on '
                         'identical buffers (%d buffers per field), legacy set vs current SetField (bytes must be identical and equal '
                         'the model), legacy init vs current init (CVF: all 256 subtypes), alias macros must equal the enumerator of the '
@@ -222,9 +222,9 @@ def c17(tier, seed):
         R = reps(tier, 1500, 300000)
         sp = S.load()
         hubs = sorted(set(a for a, _, _, _ in sp['shares']))
-        run_modes(obs, b, [dict(VP_MODE='views', VP_FORMATS=f, VP_REPS=R) for f in hubs], seed)
+        run_modes(obs, b, [dict(VP_MODE='views', VP_FORMATS=f, VP_REPS=R if pl == 0 else max(20, R // 8), VP_PLACE=pl) for f in hubs for pl in PLACES], seed)
         filt(obs, ['views:'])
-        cov = dict(distinct_nontrivial=int(obs.stats.get('nontrivial', 0)), share_pairs=len(sp['shares']),
+        cov = dict(distinct_nontrivial=int(obs.stats.get('nontrivial', 0)) // len(PLACES), share_pairs=len(sp['shares']), placements=list(PLACES),
                    rule='%d (format.field = format.field) pairs of the sharing relation in spec/wire.spec (common header x 7 stream '
                         'formats, ACF common x 10 ACF messages, stream fields across TSCF/AAF/PCM/CVF/RVF) x {generic,dedicated}^2 '
                         'paths x (6 fixed + %d random) buffers: read via A == read via B, write via A == write via B byte for byte, '
